@@ -231,8 +231,9 @@ func MetaSMPTE(hour, minute, second, frame, fractionalFrame byte) Message {
 // MetaTempo returns a tempo meta message for the given beats per minute.
 func MetaTempo(bpm float64) Message {
 	r := uint32(math.Round(bpmFac / bpm))
-	if r > 0x0FFFFFFF {
-		r = 0x0FFFFFFF
+	// the tempo is stored in 3 bytes
+	if r > 0xFFFFFF {
+		r = 0xFFFFFF
 	}
 
 	b4 := big.NewInt(int64(r)).Bytes()
